@@ -1,6 +1,5 @@
 #!/bin/bash
-# builds every engine binary once; checks rebuild incrementally from /repo
+# Builds every engine binary once (warms the Go build cache); each check rebuilds its engine from /repo anyway.
 set -e
 cd "$(dirname "$0")"
-[ -x ./build.sh ] && ./build.sh all
-exit 0
+./build.sh all
